@@ -11,6 +11,8 @@ Bounded-exhaustive product (engine E1) over the real ``passlib.totp.TOTP``:
 * part ``sweep``: every counter 0..4095 (thorough 0..65535) x algs x digits; the run *asserts* (harness
   error otherwise) that every dynamic-truncation offset 0..15, a leading-zero token and a 31-bit value
   >= 10^9 occurred for every (alg, digits) in that sweep.
+* part ``tz``: the generate product again under five PROCESS time zones (TZ + tzset): naive date-times are UTC by
+  documentation, aware ones carry their own zone, numbers have none.
 * part ``history``: one live object x every history (depth <= 3, thorough 4) of generate() calls and key
   re-assignments through the public ``key`` setter; after each step the token is the RFC value of the reported key.
 * part ``keytext``: every single-position decoration (blank, dash inserted; one letter lower-cased /
@@ -119,7 +121,29 @@ def trange(t):
 # ---------------------------------------------------------------------------
 # single-case evaluators (also used by replay)
 # ---------------------------------------------------------------------------
+PROCESS_ZONES = ("UTC0", "EST5EDT,M3.2.0,M11.1.0", "JST-9", "IST-5:30", "NZST-12NZDT,M9.5.0,M4.1.0/3")
+
+
 def eval_generate(case, obj=None):
+    tz = case.get("tz")
+    if tz:
+        # the same instant under another PROCESS time zone (TZ + tzset): date-times without a zone are documented
+        # to be taken as UTC, whatever the local zone of the process is
+        import os
+        import time as _time
+
+        old = os.environ.get("TZ")
+        os.environ["TZ"] = tz
+        _time.tzset()
+        try:
+            found = eval_generate({k: v for k, v in case.items() if k != "tz"}, obj)
+        finally:
+            if old is None:
+                os.environ.pop("TZ", None)
+            else:
+                os.environ["TZ"] = old
+            _time.tzset()
+        return [(k.replace("C13|generate|", "C13|generate_process_tz|"), f"[process TZ={tz}] {d}") for k, d in found]
     key, alg, digits, period, t, form = (case[k] for k in ("key", "alg", "digits", "period", "t", "form"))
     if obj is None:
         obj = base_cls()(key, format="raw", alg=alg, digits=digits, period=period)
@@ -350,6 +374,24 @@ def work(task):
             if c == 4095:
                 acc.sample({"kind": "generate", "key": key, "alg": alg, "digits": digits, "period": period, "t": c * period, "form": "int"})
         acc.count("sweep_counters", task["hi"] - task["lo"])
+    elif part == "tz":
+        alg = task["alg"]
+        key = make_key(seed, 20)
+        for tz in PROCESS_ZONES:
+            for digits, period in ((6, 30), (8, 60), (10, 3600)):
+                obj = base_cls()(key, format="raw", alg=alg, digits=digits, period=period)
+                for name, d, t in times_for(period):
+                    for form in FORMS:
+                        if form == "clock" or (form not in ("int", "float", "float.75") and t > DT_MAX):
+                            continue
+                        case = {"kind": "generate", "key": key, "alg": alg, "digits": digits, "period": period, "t": t, "form": form, "tz": tz}
+                        acc.ev()
+                        acc.cls("tz", tz, alg, digits, period, name, d, form)
+                        found = eval_generate(case, obj)
+                        for k, desc in found:
+                            acc.violation(k, desc, case)
+                        acc.outcome("violation" if found else f"ok:tz:{form}")
+            acc.axis("process_tz", tz)
     elif part == "history":
         import itertools
 
@@ -429,6 +471,8 @@ def run(ctx):
                                   "lo": lo, "hi": lo + 4096, "seed": seed})
     for n in keylens:
         tasks.append({"part": "keytext", "keylen": n, "seed": seed})
+    for alg in ALGS:
+        tasks.append({"part": "tz", "alg": alg, "seed": seed})
     for alg in ALGS:
         tasks.append({"part": "history", "alg": alg, "depth": 3 if ctx.quick else 4, "seed": seed})
     ctx.log(f"{len(tasks)} shards")
